@@ -8,6 +8,13 @@ class BoundCallable(CanCustomize, object):
         self.__executor = executor
         self.__fn = fn
 
+        # Layers added with with_*() after bind() inherit the executor's name,
+        # as they do when added before bind().
+        for name_attr in ("_name", "_CustomizableThreadPoolExecutor__name"):
+            if hasattr(executor, name_attr):
+                self._name = getattr(executor, name_attr)
+                break
+
         try:
             update_wrapper(self, fn)
         except AttributeError:
